@@ -161,6 +161,7 @@ type relayOutcome struct {
 	HandlerDone    bool
 	TailDelivered  bool // data sent after the peer's FIN arrived
 	TargetEOFEarly bool // target saw EOF before the client half-closed
+	ClientLate     bool // the harness client needed more than half the handshake timeout to send the address
 }
 
 // relayEnv is the shared environment of relay cases.
@@ -410,15 +411,32 @@ func runRelayCase(e *relayEnv, r *rand.Rand, rc relayCase) *relayOutcome {
 		cuts = []int{rc.FirstCut}
 	}
 	writeWire := func() error {
+		defer func() {
+			// (first call only matters: the address is in the first part)
+		}()
 		if rc.SlowMs > 0 && len(wire) > 200 {
 			half := max(len(wire)/2, hdrLen) // the handshake timeout covers everything up to the address
 			if err := cl.WriteSegmented(wire[:half], cuts, time.Duration(rc.PauseMs)*time.Millisecond); err != nil {
 				return err
 			}
+			if time.Since(cl.T0) > relayTimeout/2 {
+				emu.Lock()
+				out.ClientLate = true
+				emu.Unlock()
+			}
 			time.Sleep(time.Duration(rc.SlowMs) * time.Millisecond)
 			return cl.WriteRaw(wire[half:])
 		}
-		return cl.WriteSegmented(wire, cuts, time.Duration(rc.PauseMs)*time.Millisecond)
+		err := cl.WriteSegmented(wire[:max(hdrLen, min(len(wire), 60))], cuts, time.Duration(rc.PauseMs)*time.Millisecond)
+		if time.Since(cl.T0) > relayTimeout/2 {
+			emu.Lock()
+			out.ClientLate = true
+			emu.Unlock()
+		}
+		if err != nil {
+			return err
+		}
+		return cl.WriteRaw(wire[max(hdrLen, min(len(wire), 60)):])
 	}
 	switch rc.Mode {
 	case "client-fin-first":
